@@ -591,7 +591,9 @@ func (e *EdgeQuery) initQueue() {
 	if len(e.indexCovering) == 0 {
 		// We delay iterator initialization until now to make queries on very
 		// small indexes a bit faster (i.e., where brute force is used).
-		e.iter = NewShapeIndexIterator(e.index)
+		// Index.Iterator applies any pending updates first, so that the
+		// iterator never reads an index that is still being built.
+		e.iter = e.index.Iterator()
 	}
 
 	// Optimization: if the user is searching for just the closest edge, and the
